@@ -498,6 +498,37 @@ impl Server {
     
     /// Wake up a specific blocked client with data
     fn wake_client(&self, wakeup: WakeupRequest) -> Result<()> {
+        // Look at the connection BEFORE popping: a request for a client that is gone, closing or no longer
+        // blocked on this key is stale, and a client that is blocked on it but whose peer has closed the
+        // socket (a non-consuming peek) is dropped here as the hang-up probe would drop it. In both cases
+        // the element stays in the list (nothing is popped, nothing is logged) and the next waiter of the
+        // key, if there is one, is woken instead
+        let mut peer_gone = false;
+        let still_waiting = self.connections.with_connection(wakeup.conn_id, |conn| {
+            let waiting = match &conn.state {
+                ConnectionState::Blocked(blocked) => blocked.keys.iter().any(|(db, key)| *db == wakeup.db && *key == wakeup.key),
+                _ => false,
+            };
+            if waiting && conn.peer_closed() {
+                conn.state = ConnectionState::Closing;
+                peer_gone = true;
+                return false;
+            }
+            waiting
+        }).unwrap_or(false);
+        if peer_gone {
+            for db in 0..self.storage.database_count() {
+                let _ = self.blocking_manager.unregister_client(db, wakeup.conn_id);
+            }
+        }
+        if !still_waiting {
+            if self.blocking_manager.has_blocked_clients(wakeup.db, &wakeup.key)
+                && self.storage.llen(wakeup.db, &wakeup.key).map(|n| n > 0).unwrap_or(false) {
+                self.blocking_manager.notify_key_ready(wakeup.db, &wakeup.key);
+            }
+            return Ok(());
+        }
+        
         // Perform atomic pop based on the operation type
         let value = match wakeup.op_type {
             super::connection::BlockingOp::BLPop => self.storage.lpop(wakeup.db, &wakeup.key)?,
@@ -600,12 +631,21 @@ impl Server {
         // A blocked connection is not read below, so its hang-up would go unnoticed and the next element
         // pushed to its key would be written into a dead socket: probe it, and let cleanup_connections
         // drop it (and its registrations) when the peer is gone
+        let mut vanished = Vec::new();
         for id in self.connections.all_connection_ids() {
             self.connections.with_connection(id, |conn| {
                 if matches!(conn.state, ConnectionState::Blocked(_)) && conn.peer_closed() {
                     conn.state = ConnectionState::Closing;
+                    vanished.push(id);
                 }
             });
+        }
+        // ... and out of the registry at once, not at the end of this iteration: a push handled below must
+        // not find it as a waiter any more
+        for id in vanished {
+            for db in 0..self.storage.database_count() {
+                let _ = self.blocking_manager.unregister_client(db, id);
+            }
         }
         
         // Get all connection IDs, filtering out blocked connections for performance
